@@ -57,6 +57,16 @@ def collect(lcs):
   paired: List[tuple] = []
   for lc in lcs:
     memo = {}
+    # cheap pre-filter: only kernels that take a Model reference field (`*0`) or live in set_const can match
+    if lc.fi.module != "set_const":
+      refroots = set()
+      for p in lc.keval.params:
+        if p.kind == "array":
+          f = lc.field(p.name)
+          if f is not None and f.owner == "Model" and f.path.endswith("0") and f.ndim >= 2:
+            refroots.add(p.name)
+      if not refroots:
+        continue
     for a in lc.keval.accesses:
       if a.kind != "w" or a.value is None:
         continue
